@@ -33,4 +33,20 @@ def clearBit (f : Field) (r c : Nat) : Field × Bool :=
   let ch2 := vs1.any (fun v => isTimeView v && (clearInView v r c).2)
   ({ f with views := vs2 }, ch1 || ch2)
 
+/-! ### Histories of writes -/
+
+/-- One write of a history. -/
+inductive Op where
+  | set (r c : Nat) (t : Option Civil)
+  | clear (r c : Nat)
+
+def apply (f : Field) : Op → Field
+  | .set r c t => (f.setBit r c t).1
+  | .clear r c => (clearBit f r c).1
+
+def Op.touches (r c : Nat) : Op → Bool
+  | .set r' c' _ => r' == r && c' == c
+  | .clear _ _ => false
+
+
 end PV.C19
